@@ -266,3 +266,22 @@ Definition tnode_ok (n : tree) : Prop :=
   | Leaf _ => True
   | Node ch => ch <> [] /\ Forall (fun l => snd l = tsize (fst l)) ch
   end.
+
+(* the trickle shape. A (sub-)tree made by fillTrickleRec with maxDepth md (None: the root, no limit) has as children at most
+   maxlinks leaves, then sub-trees; sub-trees only after a full leaf layer; the i-th sub-tree (from 0) was made with
+   maxDepth i/depthRepeat + 1, which stays below md. (fuel: nesting depth of the description; S (number of chunks) always suffices) *)
+Definition is_leaf (t : tree) : Prop := match t with Leaf _ => True | Node _ => False end.
+Definition depth_allowed (md : option nat) (j : nat) : Prop := match md with Some m => (j < m)%nat | None => True end.
+Fixpoint tshape (fuel : nat) (ml : N) (md : option nat) (t : tree) : Prop :=
+  match fuel with
+  | O => False
+  | S f =>
+      match t with
+      | Leaf _ => False
+      | Node ch =>
+          exists lv sub, map fst ch = lv ++ sub /\ Forall is_leaf lv /\ N.of_nat (length lv) <= ml /\
+            (sub <> [] -> N.of_nat (length lv) = ml) /\
+            forall i c, nth_error sub i = Some c ->
+              depth_allowed md (S (i / depthRepeat)) /\ tshape f ml (Some (S (i / depthRepeat))) c
+      end
+  end.
